@@ -78,7 +78,7 @@ def entry(P, mod, name, nargs, self_ty=None):
 class Hist:
     """one exploration of a template"""
 
-    def __init__(s, P, kind, template, capacity, timeout_ms, seed, max_violations=4):
+    def __init__(s, P, kind, template, capacity, timeout_ms, seed, max_violations=4, fixed=None):
         s.P, s.kind, s.template, s.capacity = P, kind, template, capacity
         s.inst = INSTANCES[kind]()
         s.mod = kind + '::tree'
@@ -89,11 +89,16 @@ class Hist:
         s.solver.set('random_seed', seed)
         s.max_violations = max_violations
         s.qtime = 0.0
+        s.fixed = fixed          # translator validation: concrete arguments per operation
+        s.final_trees = []
 
     # ---- helpers
     def sym(s, st, name, w):
         i = st.aux['pos']
-        v = z3.BitVec(f'{name}_{i}', w)
+        if s.fixed is not None:
+            v = bv(s.fixed[i].get(name, 0), w)
+        else:
+            v = z3.BitVec(f'{name}_{i}', w)
         st.aux['args'] = st.aux['args'] + [(i, name, v)]
         return v
 
@@ -177,6 +182,14 @@ class Hist:
                 if t is None:
                     return None
                 A['cur'] = {'t': t}
+                # number of physically stored entries right before the export (C19 is stated relative to stored entries)
+                from .trees import closed_in_tree
+                v0 = View(s.inst, st.heap['tree'])
+                it0, _, _ = closed_in_tree(v0)
+                stored = bv(0, 64)
+                for f in it0[1:]:
+                    stored = stored + z3.If(f, bv(1, 64), bv(0, 64)) if isinstance(f, z3.ExprRef) and not z3.is_true(f) and not z3.is_false(f) else (stored + 1 if z3.is_true(f) else stored)
+                A['cur']['stored'] = stored
                 tree = st.heap.pop('tree')
                 return entry(P, 'key::array', 'into_ordered_vec', 2, 'KeyExpTree'), [tree, t]
         else:
@@ -261,8 +274,7 @@ class Hist:
                             f.append(z3.Not(ref.live(e, t)))
                         else:
                             f.append(z3.Implies(ref.live(e, t), z3.And(z3.ULT(rank, r.len), got == e['v'])))
-                    n_ins = len(ents)
-                    s.post(eng, st, 'C19:returned-capacity-linear', z3.ULE(r.cap, 2 * n_ins + 8))
+                    s.post(eng, st, 'C19:returned-capacity-linear', z3.ULE(r.cap, 2 * cur['stored'] + 8))
                 s.post(eng, st, 'C07:export-live-in-order', z3.And(f))
             if op == 'clear':
                 A['ref'] = RefModel()
@@ -409,6 +421,8 @@ class Hist:
         res = s.res
         res['paths'] += 1
         res['statuses'][status] = res['statuses'].get(status, 0) + 1
+        if s.fixed is not None:
+            s.final_trees.append((status, st.heap.get('tree'), bool(st.aux.get('vacuous'))))
         if st.aux.get('vacuous'):
             res['vacuous_paths'] += 1
         events = st.event_list()
@@ -460,6 +474,8 @@ class Hist:
         lim = Limits(loop=40, rec=40, steps=2000000)
         eng = Engine(s.P, s.inst, lim, s.solver, s.on_path, {})
         eng.on_return = s.on_return
+        if getattr(s, 'max_s', None):
+            eng.deadline = time.time() + s.max_s
         st = State()
         st.aux.update({'pos': -1, 'ref': RefModel(), 'now': None, 'args': [], 'cur': None, 'phase': 0})
         new = entry(s.P, s.mod, 'new', 1)
@@ -475,8 +491,10 @@ class Hist:
         return s.res
 
 
-def run_history(P, kind, template, capacity=0, timeout_ms=120000, seed=0):
-    return Hist(P, kind, template, capacity, timeout_ms, seed).run()
+def run_history(P, kind, template, capacity=0, timeout_ms=120000, seed=0, max_s=None):
+    h = Hist(P, kind, template, capacity, timeout_ms, seed)
+    h.max_s = max_s
+    return h.run()
 
 
 def run_history_job(job):
@@ -484,8 +502,93 @@ def run_history_job(job):
     from . import steps
     steps.TAG_FILTER = job.get('tags')
     try:
-        r = run_history(program(job['mir']), job['kind'], job['template'], job.get('capacity', 0), job.get('timeout_ms', 120000), job.get('seed', 0))
+        r = run_history(program(job['mir']), job['kind'], job['template'], job.get('capacity', 0), job.get('timeout_ms', 120000), job.get('seed', 0), job.get('max_s'))
+        if job.get('escalation') and r.get('unsupported'):
+            r['escalation_truncated'] = r.pop('unsupported')      # a confirmation search may stop early; it decides nothing
     except Exception as ex:      # noqa
         import traceback
         r = {'kind': job['kind'], 'template': job['template'], 'error': repr(ex), 'trace': traceback.format_exc()[-1500:]}
     return r
+
+
+def concrete_snapshot(inst, tree):
+    """same text as the native replayer's SNAP line, from a fully concrete executor state"""
+    from .trees import View
+    v = View(inst, tree)
+    c = lambda x: z3.simplify(x).as_long()
+    n = c(v.unused.len)
+    unused = [c(x) for x in v.unused.cells[:n]]
+    nodes = []
+    for i in range(v.n):
+        nodes.append(f'{c(v.P[i])}:{c(v.L[i])}:{c(v.R[i])}:{1 if c(v.C[i]) == 0 else 0}:{c(v.K[i])}:{c(v.X[i]) if v.X[i] is not None else 0}:{c(v.V[i][0])}')
+    return f'SNAP root={c(v.root)} unused={unused} nodes=' + ','.join(nodes)
+
+
+def random_history(kind, rnd, length):
+    """a random in-contract concrete history over a small key universe (translator validation)"""
+    ops = []
+    present = {}
+    now = 0
+    for _ in range(length):
+        if kind == 'key':
+            now += rnd.choice([0, 0, 1, 3])
+            live = {k for k, x in present.items() if x > now}
+            r = rnd.random()
+            if r < 0.55:
+                k = rnd.choice([k for k in range(1, 14) if k not in live] or [0])
+                if k == 0:
+                    continue
+                x = now + rnd.choice([0, 1, 2, 4, 9, 30])
+                present[k] = x
+                ops.append({'op': 'insert', 'k': k, 'x': x, 'v': rnd.randrange(256), 't': now})
+            elif r < 0.7:
+                ops.append({'op': 'get_value', 'k': rnd.randrange(0, 15), 'x': 0, 't': now})
+            elif r < 0.95:
+                ops.append({'op': rnd.choice(['first_less', 'first_less_or_equal']), 'k': rnd.randrange(0, 15), 'x': 0, 'd': 77, 't': now})
+            else:
+                ops.append({'op': 'first_less_or_equal_by', 'p9': rnd.randrange(0, 30), 'd': 77, 't': now})
+        else:
+            r = rnd.random()
+            if r < 0.5 or not present:
+                k = rnd.choice([k for k in range(1, 14) if k not in present] or [0])
+                if k == 0:
+                    continue
+                present[k] = 1
+                ops.append({'op': 'insert', 'k': k, 'v': rnd.randrange(256)})
+            elif r < 0.75:
+                k = rnd.choice(sorted(present) + [rnd.randrange(0, 15)])
+                present.pop(k, None)
+                ops.append({'op': 'delete', 'k': k})
+            elif r < 0.85:
+                k = rnd.choice(sorted(present))
+                present.pop(k, None)
+                ops.append({'op': 'pred_delete', 'k': k})
+            else:
+                ops.append({'op': 'get_value', 'k': rnd.randrange(0, 15)})
+    return ops
+
+
+def validate_translator(P, kind, seed, count, length):
+    """run random concrete histories through the MIR executor and natively; compare the complete final arena.
+    returns (validated, mismatches[list])"""
+    import random
+    from . import common
+    rnd = random.Random(seed * 7919 + {'map': 1, 'set': 2, 'key': 3}[kind])
+    ok, bad = 0, []
+    for _ in range(count):
+        ops = random_history(kind, rnd, length)
+        if not ops:
+            continue
+        h = Hist(P, kind, [o['op'] for o in ops], 0, 60000, 0, fixed=ops)
+        r = h.run()
+        hist = {'kind': kind, 'capacity': 0, 'ops': ops}
+        nat = common.run_replay(hist, 'dev', dump=True)
+        if r.get('unsupported') or len(h.final_trees) != 1 or h.final_trees[0][1] is None or h.final_trees[0][2]:
+            bad.append({'history': hist, 'why': f'executor: paths={len(h.final_trees)} {r.get("unsupported")}'})
+            continue
+        mine = concrete_snapshot(h.inst, h.final_trees[0][1])
+        if nat.get('snap') != mine or nat['findings'] or r['n_violations']:
+            bad.append({'history': hist, 'executor': mine, 'native': nat.get('snap'), 'native_findings': nat['findings'], 'executor_violations': r['n_violations']})
+        else:
+            ok += 1
+    return ok, bad
